@@ -130,9 +130,16 @@ def limits_gate_control(prog: Program, rep) -> None:
             par = pm.get(id(n))
             ok = False
             why = ""
+            # `if reached: <limit branch>` or `if not reached: pass  else: <limit branch>`
+            limit_body = other_body = None
             if isinstance(par, ast.If) and par.test is n:
-                leaves = always_leaves(par.body)
-                last = par.body[-1]
+                limit_body, other_body = par.body, par.orelse
+            elif isinstance(par, ast.UnaryOp) and isinstance(par.op, ast.Not) and isinstance(pm.get(id(par)), ast.If) and pm.get(id(par)).test is par:
+                par = pm.get(id(par))
+                limit_body, other_body = par.orelse, par.body
+            if limit_body:
+                leaves = always_leaves(limit_body)
+                last = limit_body[-1]
                 if isinstance(last, ast.Return):
                     st = enum_member(prog, fi, last.value, "pygradflow.status.SolverStatus") if last.value is not None else None
                     ok = st == "TimeLimit"
@@ -143,17 +150,29 @@ def limits_gate_control(prog: Program, rep) -> None:
                     why = f"raises {cn}"
                 elif isinstance(last, ast.Break):
                     # integration solver: status = TimeLimit; break
-                    ok = any(isinstance(s, ast.Assign) and enum_member(prog, fi, s.value, "pygradflow.status.SolverStatus") == "TimeLimit" for s in par.body)
+                    ok = any(isinstance(s, ast.Assign) and enum_member(prog, fi, s.value, "pygradflow.status.SolverStatus") == "TimeLimit" for s in limit_body)
                     why = "sets status TimeLimit and leaves the loop"
-                ok = ok and leaves and not par.orelse
+                ok = ok and leaves and all(isinstance(s, ast.Pass) for s in other_body)
                 if not ok:
                     # single-exit style: the branch only logs and assigns TimeLimit to the variable the function returns
                     from .common import value_sites
                     sites = {id(s_) for s_, _ in value_sites(fi, ff)}
-                    body_ok = all((isinstance(s, ast.Expr) and isinstance(s.value, ast.Call) and (dotted(s.value.func) or "").startswith("logger.")) or
-                                  (isinstance(s, ast.Assign) and id(s) in sites and enum_member(prog, fi, s.value, "pygradflow.status.SolverStatus") == "TimeLimit")
-                                  for s in par.body)
-                    if body_ok and any(isinstance(s, ast.Assign) for s in par.body):
+                    # ... or to the variable handed to SolverResult as the status; other locals may be cleared (`x = None`)
+                    from .common import bind_args as _bind
+                    status_vars = set()
+                    for c_ in own_nodes(fi.node):
+                        if isinstance(c_, ast.Call) and dotted(c_.func) == "SolverResult":
+                            b_ = _bind(prog.func("pygradflow.result.SolverResult.__init__"), c_)
+                            if b_ and isinstance(b_.get("status"), ast.Name):
+                                status_vars.add(b_["status"].id)
+
+                    def sets_limit(s):
+                        return isinstance(s, ast.Assign) and (id(s) in sites or (len(s.targets) == 1 and isinstance(s.targets[0], ast.Name) and s.targets[0].id in status_vars)) \
+                            and enum_member(prog, fi, s.value, "pygradflow.status.SolverStatus") == "TimeLimit"
+                    body_ok = all((isinstance(s, ast.Expr) and isinstance(s.value, ast.Call) and (dotted(s.value.func) or "").startswith("logger.")) or sets_limit(s) or
+                                  (isinstance(s, ast.Assign) and len(s.targets) == 1 and isinstance(s.targets[0], ast.Name) and isinstance(s.value, ast.Constant) and s.value.value is None)
+                                  for s in limit_body)
+                    if body_ok and any(sets_limit(s) for s in limit_body):
                         ok, why = True, "assigns TimeLimit to the returned status"
             elif isinstance(par, ast.Assign) and len(par.targets) == 1 and isinstance(par.targets[0], ast.Name) and n.func.attr == "elapsed":
                 name = par.targets[0].id
